@@ -3,6 +3,7 @@ package props
 import (
 	"fmt"
 	"go/token"
+	"go/types"
 	"strings"
 
 	"gmslverif/fw"
@@ -26,6 +27,7 @@ func checkC11(c *fw.Ctx) {
 	checkAgreedState(c)
 	checkResultAssembly(c)
 	checkMainlineIndex(c)
+	checkLineariseDedup(c)
 }
 
 // checkMainlineIndex: powerLevelMainlinePos is both the position table and the "is on the
@@ -605,5 +607,80 @@ func checkResultAssembly(c *fw.Ctx) {
 			}})
 			c.Check(ok, rule, spec+": the result is assembled from the per-key resolved slots", c.P.Pos(fw.InstrPos(st)), "", "a value that does not come from the resolved* slots is appended to the result: "+s)
 		}
+	}
+}
+
+// checkLineariseDedup ("7 linearise"): the ordering routines count an event's auth events per
+// list entry but resolve them through a map keyed by event ID, so an event listed twice
+// keeps its ancestors' in-degree above zero and they leave the DAG order (precondition P2 of
+// the order-taint argument: the input of the sort has no duplicates). LineariseStateResponse
+// is the caller that joins two remote lists: every entry it hands on comes out of a map
+// keyed by event ID, or is appended behind a not-seen-yet test.
+func checkLineariseDedup(c *fw.Ctx) {
+	rule := "7 linearise"
+	fn := mustFunc(c, rule, "LineariseStateResponse")
+	if fn == nil {
+		return
+	}
+	construct := "LineariseStateResponse hands each event to the ordering once"
+	var sortCall ssa.CallInstruction
+	calls := fw.AllDeepCalls(fn, stopExported)
+	compacts := false
+	for _, dc := range calls {
+		n := fw.CalleeName(dc.Call)
+		if n == "gmsl.ReverseTopologicalOrdering" {
+			sortCall = dc.Call
+		}
+		if strings.HasPrefix(n, "slices.Compact") || strings.HasPrefix(n, "slices.Sort") || strings.HasPrefix(n, "sort.") {
+			compacts = true
+		}
+	}
+	if sortCall == nil {
+		c.Undecided(rule, construct, "no call of ReverseTopologicalOrdering in the region of LineariseStateResponse")
+		return
+	}
+	isPDUSlice := func(t types.Type) bool {
+		sl, ok := t.Underlying().(*types.Slice)
+		return ok && strings.HasSuffix(fw.Short(sl.Elem().String()), "gmsl.PDU")
+	}
+	n, bad := 0, 0
+	for _, dc := range calls {
+		if fw.CalleeName(dc.Call) != "builtin.append" || !isPDUSlice(dc.Call.Common().Args[0].Type()) {
+			continue
+		}
+		n++
+		blk := dc.Call.Block()
+		// inside a loop over a map: the entries are distinct keys
+		overMap := false
+		if h, _ := fw.LoopOf(blk); h != nil {
+			for _, ins := range h.Instrs {
+				if nx, ok := ins.(*ssa.Next); ok {
+					if rg, ok := nx.Iter.(*ssa.Range); ok {
+						if _, isMap := rg.X.Type().Underlying().(*types.Map); isMap {
+							overMap = true
+						}
+					}
+				}
+			}
+		}
+		guarded := false
+		for _, f := range fw.DeepFacts(dc.Fr, blk) {
+			if strings.HasPrefix(f, "!") && strings.HasSuffix(f, "#1") {
+				guarded = true // `if _, seen := m[id]; !seen`
+			}
+		}
+		pos := c.P.Pos(dc.Call.Pos())
+		switch {
+		case overMap || guarded:
+			c.Ok(rule, construct, pos, map[bool]string{true: "entries of a map keyed by event ID", false: "appended behind a not-seen test"}[overMap])
+		case compacts:
+			c.Undecided(rule, construct, "the list built at "+pos+" may be de-duplicated by a later sort/compact step the rule does not follow")
+		default:
+			bad++
+			c.Fail(rule, construct, pos, "events of a remote list are appended to the list that is ordered without a test that the event ID was not seen before: an event listed twice is counted twice in its ancestors' in-degree and they are emitted out of DAG order")
+		}
+	}
+	if n == 0 {
+		c.Undecided(rule, construct, "no append building the ordered list was recognised")
 	}
 }
